@@ -525,6 +525,58 @@ pub fn eval_static(b: &Built) -> Vec<Violation> {
     out
 }
 
+/// C12, second sentence: a dispatcher converts to its sendable form exactly when it has no
+/// thread-local systems, and the conversion preserves its plan (same shape, same systems at the
+/// same positions - recovered by an identification run of the converted dispatcher).
+pub fn check_sendable(sc: &Scenario) -> Vec<Violation> {
+    use shred::RunNow;
+    let mut out = Vec::new();
+    let mut b = build(sc, &BuildOpts::default());
+    let infos = b.ctx.infos.clone();
+    let has_tl = infos.iter().any(|i| i.parent.is_none() && i.kind == Kind::Tl);
+    let before = b.layout.clone();
+    let Some(d) = b.disp.take() else { return out };
+    match d.try_into_sendable() {
+        Ok(mut sd) => {
+            if has_tl {
+                out.push(Violation { prop: "C12".into(), class: "sendable-with-thread-local".into(), msg: "try_into_sendable returned Ok for a dispatcher that holds thread-local systems".into() });
+            }
+            let shape = sd.verif_shape();
+            let want: Vec<Vec<usize>> = before.top.iter().map(|s| s.iter().map(|g| g.len()).collect()).collect();
+            if shape != want {
+                out.push(Violation { prop: "C12".into(), class: "sendable-plan-changed".into(), msg: format!("shape before the conversion {:?}, after {:?}", want, shape) });
+            } else {
+                // identification run of the converted dispatcher (through its RunNow face in the
+                // build without `parallel`, dispatch_seq otherwise)
+                b.ctx.mode.store(1, Ordering::SeqCst);
+                b.ctx.events.lock().unwrap().clear();
+                sd.dispatch_seq(&b.world);
+                b.ctx.mode.store(0, Ordering::SeqCst);
+                let evs = std::mem::take(&mut *b.ctx.events.lock().unwrap());
+                let order: Vec<usize> = evs.iter().filter(|e| e.kind == crate::sys::Ev::Enter && infos[e.sid as usize].parent.is_none()).map(|e| e.sid as usize).collect();
+                let want_order: Vec<usize> = before.top.iter().flatten().flatten().copied().collect();
+                if order != want_order {
+                    out.push(Violation { prop: "C12".into(), class: "sendable-plan-changed".into(), msg: format!("systems in execution order before the conversion {:?}, after {:?}", want_order, order) });
+                }
+            }
+            let bx: Box<dyn for<'a> RunNow<'a>> = Box::new(sd);
+            bx.dispose(&mut b.world);
+        }
+        Err(d2) => {
+            if !has_tl {
+                out.push(Violation { prop: "C12".into(), class: "not-sendable-without-thread-local".into(), msg: "try_into_sendable returned Err for a dispatcher without thread-local systems".into() });
+            }
+            let (shape, tl) = d2.verif_shape();
+            let want: Vec<Vec<usize>> = before.top.iter().map(|s| s.iter().map(|g| g.len()).collect()).collect();
+            if shape != want || tl != before.tl_top {
+                out.push(Violation { prop: "C12".into(), class: "sendable-plan-changed".into(), msg: "the dispatcher handed back by a refused conversion has another shape".into() });
+            }
+            d2.dispose(&mut b.world);
+        }
+    }
+    out
+}
+
 /// Dispose the dispatcher and check that every system was handed to its dispose hook once.
 pub fn eval_dispose(mut b: Built) -> Vec<Violation> {
     let mut out = Vec::new();
@@ -881,6 +933,13 @@ pub fn explore(prop: &str, seed: u64, thorough: bool, st: &mut Stats) -> Vec<Rep
         // a dispose problem is a property of the scenario, not of a particular run
         push_found(prop, &mut found, st, &v, || mk_replay(prop, seed, &sc, "static", &StratSpec::NoPreempt, 0, None, 0, &v));
     }
+    if prop == "C12" {
+        st.runs += 1;
+        Stats::bump(&mut st.extra, "try_into_sendable_checked", 1);
+        for v in check_sendable(&sc) {
+            push_found(prop, &mut found, st, &v, || mk_replay(prop, seed, &sc, "static", &StratSpec::NoPreempt, 0, None, 0, &v));
+        }
+    }
     found
 }
 
@@ -968,5 +1027,8 @@ pub fn eval_replay(r: &Replay) -> EvalOut {
         steps = o.steps;
     }
     vs.extend(eval_dispose(b));
+    if r.property == "C12" {
+        vs.extend(check_sendable(&sc));
+    }
     EvalOut { violations: vs, digest, trace, steps }
 }
